@@ -12,6 +12,20 @@ func VerifH_C02_BlockReaderNext() {
 	if vTier() == 1 {
 		N = 16
 	}
+	vC02BlockReader(N, true)
+}
+
+// VerifH_C02_BlockReaderNextDefaultLimit: the same with the default 8 MiB section limit, so that a
+// length prefix may announce far more bytes than the stream holds (N = 7, thorough 9).
+func VerifH_C02_BlockReaderNextDefaultLimit() {
+	N := 7
+	if vTier() == 1 {
+		N = 9
+	}
+	vC02BlockReader(N, false)
+}
+
+func vC02BlockReader(N int, smallLimit bool) {
 	root := vIdentityCid([]byte("r"))
 	hdr := vHeaderV1(root)
 	in := vBytes("in", N)
@@ -19,8 +33,13 @@ func VerifH_C02_BlockReaderNext() {
 	vAssume(n >= 0 && n <= N)
 	zl := vBool("zeroLen")
 	src := &vStream{data: vCat(hdr, in[:n])}
-	// bound: section size limit = N (every longer length prefix is rejected before allocation; C09 checks that)
-	br, err := NewBlockReader(src, ZeroLengthSectionAsEOF(zl), MaxAllowedSectionSize(uint64(N)))
+	// section size limit: N (every longer length prefix is rejected), or the 8 MiB default, under
+	// which a length prefix announcing up to 8 MiB is followed by a stream that ends early
+	opts := []Option{ZeroLengthSectionAsEOF(zl)}
+	if smallLimit {
+		opts = append(opts, MaxAllowedSectionSize(uint64(N)))
+	}
+	br, err := NewBlockReader(src, opts...)
 	vAssert("header-accepted", err == nil && br.Version == 1 && len(br.Roots) == 1 && br.Roots[0].Equals(root))
 	vAssert("header-consumed-exactly", src.pos == len(hdr))
 	for i := 0; i < 4; i++ {
@@ -32,7 +51,9 @@ func VerifH_C02_BlockReaderNext() {
 			vAssert("integrity", herr == nil && h.Equals(c))
 			vAssert("progress", src.pos > before)
 			vCover("block-returned", true)
-			vCover("second-block-returned", i == 1)
+			if smallLimit {
+				vCover("second-block-returned", i == 1)
+			}
 			continue
 		}
 		if err == io.EOF {
